@@ -6,28 +6,59 @@
    number of connections and requests, any handler durations, any interleaving of the accept loop, the receive
    loops, the dispatcher, the handlers, the Shutdown poller, the context and the process exit. *)
 From Coq Require Import List NArith Bool Arith.
-From TarsV Require Import Conc.Shutdown Conc.ShutdownProofs.
+From TarsV Require Gen.Consts.
+From TarsV Require Import Conc.Shutdown Conc.ShutdownProofs Conc.ShutdownSrc.
 Import ListNotations.
 
-(* 1. Every request read from a connection is answered before the server closes that connection: in every
-   reachable state a closed connection has no request that is read-and-unanswered (pending, queued, in the
-   dispatcher's hand, spawned or running), and no response was ever lost to a closed socket. *)
-Theorem C12_answered_before_close : forall W cap early ls s, run W cap early init ls = Some s ->
-  forall c, cst s c = CClosed -> forall r, unanswered (rs s c r) = false /\ rs s c r <> Lost.
+(* The model now has the code's granularity at the two places where a step used to be atomic: recv's conn.Read
+   returning a request (LReadBytes) and handleConn's numInvoke++ (LRead) are two steps, and so are CloseIdles' test of
+   numInvoke / idle time (LPollCheck) and its conn.Close() (LPollClose). The ghost flag [raced] records that one of the
+   two windows was hit (bytes read between the poller's test and its Close, or the test made while a request was read
+   and not yet counted).
+
+   1. Every request read from a connection is answered before the server closes that connection.
+   Full statement, for every schedule: *)
+Definition C12_answered_before_close_statement : Prop :=
+  forall W cap early ls s, run W cap early init ls = Some s ->
+  forall c, cst s c = CClosed -> rdbuf s c = None /\ forall r, unanswered (rs s c r) = false /\ rs s c r <> Lost.
+
+(* It is FALSE of the faithful model, hence of the code: both windows lose a request that the server had read
+   (response written to a closed socket). The first witness is replayed on the code on every run (known finding
+   shutdown/race/read-then-count: a yield point between Read and numInvoke++ holds the receive loop while the poller
+   closes the connection). *)
+Theorem C12_answered_before_close_refuted :
+  (exists s, run 0 10 false init race_read_then_count = Some s /\ cst s 0 = CClosed /\ rs s 0 0 = Lost /\ raced s = true) /\
+  (exists s, run 0 10 false init race_check_then_close = Some s /\ cst s 0 = CClosed /\ rs s 0 0 = Lost /\ raced s = true) /\
+  ~ C12_answered_before_close_statement.
+Proof. exact ShutdownProofs.c12_answered_before_close_refuted. Qed.
+
+(* the same race lets Shutdown return "drained" with a request read and unanswered *)
+Theorem C12_drained_return_refuted_by_race :
+  exists s s', run 2 10 false init [LConnect 0; LSend 0 0; LShutdown; LAcceptExit; LReadBytes 0 0; LPollBegin; LPollCheck 0;
+                                    LPollClose 0; LRead 0 0] = Some s /\
+    step 2 10 false s LPollReturn = Some s' /\ ph s' = SRetDrained /\ unanswered (rs s' 0 0) = true /\ raced s' = true.
+Proof. exact ShutdownProofs.c12_drained_return_refuted_by_race. Qed.
+
+(* Proved for every run in which neither window was hit — the windows are the ONLY way to violate the clause: a closed
+   connection has no request that is read (counted or not) and unanswered, and nothing was lost to a closed socket. *)
+Theorem C12_answered_before_close_partial : forall W cap early ls s, run W cap early init ls = Some s ->
+  raced s = false ->
+  forall c, cst s c = CClosed -> rdbuf s c = None /\ forall r, unanswered (rs s c r) = false /\ rs s c r <> Lost.
 Proof. exact ShutdownProofs.c12_answered_before_close. Qed.
 
-(* ... and the closing step itself is one of the two close sites, taken with numInvoke = 0 *)
+(* ... and the closing step itself is one of the two close sites, taken with numInvoke = 0 and nothing uncounted *)
 Theorem C12_close_step : forall W cap early ls s l s' c, run W cap early init ls = Some s ->
-  step W cap early s l = Some s' -> cst s c <> CClosed -> cst s' c = CClosed ->
-  (l = LPollClose c \/ l = LRecvClose c) /\ busy s c = [] /\
+  step W cap early s l = Some s' -> raced s' = false -> cst s c <> CClosed -> cst s' c = CClosed ->
+  (l = LPollClose c \/ l = LRecvClose c) /\ busy s c = [] /\ rdbuf s c = None /\
   forall r, unanswered (rs s c r) = false /\ rs s' c r = rs s c r.
 Proof. exact ShutdownProofs.c12_close_step. Qed.
 
-(* ... and a request that was read and is not answered — whether pending, queued in JobQueue, in the dispatcher's
-   hand, spawned or running — is counted in numInvoke and keeps its connection open and in the table *)
+(* ... and a request that was read, counted and not answered — whether pending, queued in JobQueue, in the
+   dispatcher's hand, spawned or running — is in numInvoke and keeps its connection in the table on every schedule,
+   and open on every schedule without a race *)
 Theorem C12_unanswered_keeps_connection : forall W cap early ls s, run W cap early init ls = Some s ->
   forall c r, unanswered (rs s c r) = true ->
-  In r (busy s c) /\ (cst s c = COpen \/ cst s c = CExited) /\ inmap s c = true.
+  In r (busy s c) /\ inmap s c = true /\ (raced s = false -> cst s c = COpen \/ cst s c = CExited).
 Proof. exact ShutdownProofs.c12_unanswered_keeps_connection. Qed.
 
 (* 2. Every request read is executed, with and without a pool (repaired code): while the process lives, a request
@@ -65,6 +96,13 @@ Theorem C12_can_always_drain : forall W cap, (0 < cap)%N -> forall ls s, run W c
   exists ls' s', Forall pipeline_label ls' /\ run W cap false s ls' = Some s' /\
                  ph s' = ph s /\ forall c r, unanswered (rs s' c r) = false.
 Proof. exact ShutdownProofs.can_always_drain. Qed.
+
+(* no request is executed twice or answered twice, on any schedule: in any run the handler of (c, r) is started at
+   most once and finishes (response written) at most once — the counterpart of the duplicate-response monitor *)
+Theorem C12_executed_and_answered_at_most_once : forall W cap early ls s c r, run W cap early init ls = Some s ->
+  count_lab (is_finish c r) ls <= 1 /\ (count_lab (is_finish c r) ls = 1 -> rank (rs s c r) = 6) /\
+  count_lab (is_start c r) ls <= 1 /\ (count_lab (is_start c r) ls = 1 -> 5 <= rank (rs s c r)).
+Proof. exact ShutdownProofs.answered_at_most_once. Qed.
 
 (* The code before the fix violates clause 2 with a pool: after this run request (0,1) is read and queued, and on
    EVERY continuation it stays queued, its connection is never closed by the server and Shutdown never returns
@@ -119,13 +157,29 @@ Proof. exact ShutdownProofs.c12_all_open_notified. Qed.
 (* 4. Shutdown returns once all connections have drained, or when its context expires. The drained return is
    taken only with every accepted connection closed and nothing read left unanswered; with every connection
    closed it is taken at the poller's next tick; the context ends Shutdown from any point of the drain. *)
-Theorem C12_drained_return_sound : forall W cap early ls s s', run W cap early init ls = Some s ->
+Theorem C12_drained_return_sound : forall W cap early ls s s', run W cap early init ls = Some s -> raced s = false ->
   step W cap early s LPollReturn = Some s' ->
   ph s' = SRetDrained /\ (forall c, In c (known s') -> cst s' c = CClosed) /\
-  (forall c r, unanswered (rs s' c r) = false).
+  (forall c r, unanswered (rs s' c r) = false) /\ (forall c, rdbuf s' c = None).
 Proof. exact ShutdownProofs.c12_drained_return_sound. Qed.
 
+(* on every schedule, race or not: CloseIdles' "all closed" is a conjunction over the whole table — the drained return
+   needs EVERY accepted connection closed (not the last one visited: seeded C12-m12) *)
+Theorem C12_drained_return_needs_all : forall W cap early ls s s', run W cap early init ls = Some s ->
+  step W cap early s LPollReturn = Some s' ->
+  ph s' = SRetDrained /\ forall c, In c (known s') -> cst s' c = CClosed.
+Proof. exact ShutdownProofs.c12_drained_return_needs_all. Qed.
+
+(* a non-timeout Accept error (EMFILE ...) is a step of the accept loop that changes nothing and is always possible
+   while the listener is up: the server goes on accepting and a later shutdown is the same (seeded C12-m11) *)
+Theorem C12_accept_error_is_noop : forall W cap early s s', step W cap early s LAcceptErr = Some s' -> s' = s.
+Proof. exact ShutdownProofs.c12_accept_error_is_noop. Qed.
+Theorem C12_accept_error_enabled : forall W cap early s, alive (ph s) = true -> listen s = 0 ->
+  step W cap early s LAcceptErr = Some s.
+Proof. exact ShutdownProofs.c12_accept_error_enabled. Qed.
+
 Theorem C12_drained_return_enabled : forall W cap early s, is_down (ph s) = true -> all_closed s = true ->
+  nochk s = true ->   (* the poller is between two connections of its sweep *)
   exists s', run W cap early s (if inpoll s then [LPollReturn] else [LPollBegin; LPollReturn]) = Some s' /\
              ph s' = SRetDrained.
 Proof. exact ShutdownProofs.drained_return_enabled. Qed.
@@ -135,12 +189,27 @@ Proof. exact ShutdownProofs.drained_return_enabled. Qed.
    returns drained — the opposite of C12_progress_refuted_before_fix *)
 Theorem C12_can_always_return_drained : forall W cap, (0 < cap)%N -> forall ls s,
   run W cap false init ls = Some s -> ph s = SDown ->
-  exists ls' s', run W cap false s ls' = Some s' /\ ph s' = SRetDrained.
+  exists ls' s', run W cap false s ls' = Some s' /\ ph s' = SRetDrained /\ raced s' = raced s.   (* without a new race *)
 Proof. exact ShutdownProofs.can_always_return_drained. Qed.
 
 Theorem C12_ctx_expiry_enabled : forall W cap early s, is_down (ph s) = true ->
   exists s', step W cap early s LCtxExpire = Some s' /\ ph s' = SRetCtx.
 Proof. exact ShutdownProofs.ctx_expiry_enabled. Qed.
+
+(* 6. What the model takes from the source text of tars/transport, regenerated on every run (the c_c12 definitions of Gen/Consts.v):
+   the two tickers have the same period (the model's [polled] guard), the shutdown read deadline is shorter than a
+   tick, the idle threshold, and the shape of the steps the model mirrors. *)
+Theorem C12_source_tickers_same_period :
+  (Consts.c_c12_shutdown_tick_ms = Consts.c_c12_recv_drain_tick_ms /\ 0 < Consts.c_c12_shutdown_tick_ms)%N.
+Proof. exact ShutdownSrc.src_tickers_same_period. Qed.
+Theorem C12_source_read_deadline_below_tick : (Consts.c_c12_shutdown_read_deadline_ms < Consts.c_c12_shutdown_tick_ms)%N.
+Proof. exact ShutdownSrc.src_read_deadline_below_tick. Qed.
+Theorem C12_source_idle_threshold : (Consts.c_c12_closeidles_idle_s = 2)%N.
+Proof. exact ShutdownSrc.src_idle_threshold_s. Qed.
+Theorem C12_source_step_shape :
+  (Consts.c_c12_closemsg_before_sweep = 1 /\ Consts.c_c12_accept_error_continues = 1 /\ Consts.c_c12_count_before_dispatch = 1 /\
+   Consts.c_c12_allclosed_only_cleared = 1 /\ Consts.c_c12_closemsg_range_continues = 1 /\ Consts.c_c12_decrement_deferred_in_handler = 1)%N.
+Proof. exact ShutdownSrc.src_step_shape. Qed.
 
 (* 5. The tie: a recorded shutdown accepted by the trace validator is explained by a run of the repaired model
    that ends with the process exit, so 1-4 hold of its explanation. *)
@@ -148,7 +217,9 @@ Theorem C12_accepts_sound : forall W cap tr, accepts W cap tr = true ->
   exists ls s, run W cap false init ls = Some s /\ ph s = SExited.
 Proof. exact ShutdownProofs.accepts_sound. Qed.
 
-Print Assumptions C12_answered_before_close.
+Print Assumptions C12_answered_before_close_refuted.
+Print Assumptions C12_drained_return_refuted_by_race.
+Print Assumptions C12_answered_before_close_partial.
 Print Assumptions C12_close_step.
 Print Assumptions C12_unanswered_keeps_connection.
 Print Assumptions C12_read_requests_progress.
@@ -156,6 +227,7 @@ Print Assumptions C12_rank_monotone.
 Print Assumptions C12_pipeline_step_advances.
 Print Assumptions C12_pipeline_work_bounded.
 Print Assumptions C12_can_always_drain.
+Print Assumptions C12_executed_and_answered_at_most_once.
 Print Assumptions C12_progress_refuted_before_fix.
 Print Assumptions C12_notification_partial.
 Print Assumptions C12_notification_refuted.
@@ -164,7 +236,14 @@ Print Assumptions C12_drained_return_notified.
 Print Assumptions C12_notifying_tick_per_connection.
 Print Assumptions C12_all_open_notified.
 Print Assumptions C12_drained_return_sound.
+Print Assumptions C12_drained_return_needs_all.
+Print Assumptions C12_accept_error_is_noop.
+Print Assumptions C12_accept_error_enabled.
 Print Assumptions C12_drained_return_enabled.
 Print Assumptions C12_can_always_return_drained.
 Print Assumptions C12_ctx_expiry_enabled.
 Print Assumptions C12_accepts_sound.
+Print Assumptions C12_source_tickers_same_period.
+Print Assumptions C12_source_read_deadline_below_tick.
+Print Assumptions C12_source_idle_threshold.
+Print Assumptions C12_source_step_shape.
